@@ -135,6 +135,9 @@ def c18(tier):
                "fair-transitions")
     run_family(chk, "server", "prod", ["--seed", s + 2, "--n", 10000 if thorough else 1500, "--mode", "fairmixed"], [ST],
                "fair-mixed-roles")
+    # several hundred connections open at once (a flooder in a slot beyond 256, waiting clients before and behind it)
+    run_family(chk, "server", "prod", ["--seed", s + 3, "--n", 8 if thorough else 2, "--mode", "fairwide"], [ST],
+               "fair-wide")
     chk.nontrivial = chk.traces_ok
     return chk.finish()
 
